@@ -74,14 +74,35 @@ static int ent_malformed(const sanent_t *e)
 }
 static int cn_malformed(const cnent_t *c) { return c->len >= 0 && (c->len == 0 || bad_bytes(c->b, c->len)); }
 
+/* an expected name that is an IPv4 literal (dotted quad of decimal numbers) is not a host name */
+static int exp_is_ipv4_literal(const char *E, int el)
+{
+    int i, dots = 0, digits = 0;
+    for (i = 0; i < el; i++)
+    {
+        if (E[i] == '.')
+        {
+            if (digits == 0 || digits > 3) return 0;
+            dots++; digits = 0;
+        }
+        else if (E[i] >= '0' && E[i] <= '9') digits++;
+        else return 0;
+    }
+    return dots == 3 && digits >= 1 && digits <= 3;
+}
 static int host_rule_strict(const char *P, int pl, const char *E, int el)
 {
     int i, nstar = 0;
     for (i = 0; i < pl; i++) nstar += P[i] == '*';
+    /* "an entry of the right kind": an IP literal or an e-mail address is authenticated by an iPAddress / rfc822Name
+       entry.  A dNSName or CN that spells the same characters is a don't-care (the library now refuses it for SAN
+       entries and keeps the exact CN fallback); a WILDCARD never stands for part of an address */
+    if (nstar == 0 && (exp_is_ipv4_literal(E, el) || memchr(E, '@', (size_t) el))) return ieqn(P, pl, E, el) ? 2 : 0;
     if (nstar == 0) return ieqn(P, pl, E, el);
     if (nstar == 1 && pl >= 3 && P[0] == '*' && P[1] == '.')
     {
         const char *dot;
+        if (exp_is_ipv4_literal(E, el)) return 0;
         if (memchr(E, '@', (size_t) el)) return 0;
         dot = memchr(E, '.', (size_t) el);
         if (dot == NULL || dot == E) return 0;                       /* no label boundary / empty label */
